@@ -34,6 +34,11 @@ def run(rep, tier, seed):
                 h = hist.BudgetHarness(system, pm, weakly, 2, M, 2, H, budgets=[budget(*c), {}], jumps=1 if quick else 2,
                                        give_up=(pm == "z3"), level=lvl)
                 drive.run_op(rep, h)
+    # two conditionals (two layers possible) for the operators whose recursion descends
+    # through the layers while the deadline is polled
+    for system, pm, lvl in [SYSTEMS[2], SYSTEMS[4]]:
+        h = hist.BudgetHarness(system, pm, False, 2, 2, 1, [[(1, 0, "q0")]], budgets=[budget(0, 0, 1)], jumps=1, level=lvl, layers=[0, 1])
+        drive.run_op(rep, h)
     # parallel evaluation under a budget, workers may be declared hung after join
     for system, pm, lvl in ([SYSTEMS[2]] if quick else SYSTEMS):
         h = hist.BudgetHarness(system, pm, False, 2, 1, 2, [[(5, 1, "q1"), (0, 0, "q0")], [(1, 0, "q0")]], budgets=[budget(0, 0, 1), {}], jumps=1,
